@@ -32,6 +32,11 @@ CLAIMS = {
          "(batch = fold of events + one signal round, machines in index order, clone equality). The model is tied to the code by a "
          "whole-state differential (snapshot, actions, step count, internal log after every call) over generated machines x histories "
          "with the implementation's own random draws replayed as the oracle tape.", "DESIGN.md section 4, C05"),
+
+ "C09": ("Theorems C09_call / C09_at_most_one / C09_signallers / C09_targets over the ghost log: with nobody signalling nothing is delivered; a lone "
+         "signaller (however often it signals) is excluded and every other machine index receives exactly one Signal, the signaller receiving one only if "
+         "a machine answered during the round; two or more distinct signallers reach every index exactly once; the delivery list never contains a duplicate "
+         "and no pending signal survives the call. The log is tied to the code by the hook log comparison.", "DESIGN.md section 4, C09"),
 }
 
 NOT_YET = "check not built yet (in progress; planned per DESIGN.md section 7)"
